@@ -940,6 +940,8 @@ def variants(ctx):
     # _Pool: borrow / return, bodies that raise
     out.append(('pool', dict(plans=pick(['11', '1'], ['11', '11'], ['10', '11'])), q(3, 4), q(500, 6000)))
     out.append(('pool', dict(plans=pick(['11', '1', '1'], ['1', '01', '11'])), b2, q(350, 5000)))
+    # in every run whatever the seed: a body that raises first, then two borrowers at the same time
+    out.append(('pool', dict(plans=['01', '11']), b2, q(350, 5000)))
     return out
 
 
